@@ -291,6 +291,10 @@ impl<R: DynamicChannelRegion> RegionHandler for DynamicChannelPlan<R> {
             && let Some(mut channel) = self.channels[index as usize]
             && channel.frequency != 0
         {
+            // A request is applied only when both status bits can be set.
+            if !freq_valid {
+                return (false, true);
+            }
             channel.dl_frequency = if freq == channel.frequency {
                 // Reset downlink frequency
                 None
